@@ -375,3 +375,42 @@ Example download_without_rewind_duplicates :
   sdata (d_dst (snd (fst (fst (run_method FlS3 (down_attempt no_rewind 2) 4 3 [Some mid_fault] (dstart [] [1; 2; 3; 4; 5]%N))))))
   = [1; 2; 1; 2; 3; 4; 5]%N.
 Proof. vm_compute. reflexivity. Qed.
+
+(* ---- a fault the giveup predicate accepts (403): error after a single try, for every flavour that has one *)
+Lemma local_nonfatal_all : forall pre, Forall (nonfatal FlLocal) pre.
+Proof. intro pre. apply Forall_forall. intros f _. unfold nonfatal. cbn. discriminate. Qed.
+
+Lemma not403_nonfatal : forall fl pre, Forall (fun f => f_kind f <> K403) pre -> Forall (nonfatal fl) pre.
+Proof.
+  intros fl pre H. eapply Forall_impl; [|exact H]. intros f Hf. unfold nonfatal.
+  destruct fl; cbn; destruct (f_kind f) eqn:E; try discriminate; congruence.
+Qed.
+
+Lemma not403_retryable_s3 : forall pre, Forall (fun f => f_kind f <> K403) pre ->
+  Forall (retryable FlS3) pre /\ Forall (gives_up_at_last FlS3) pre.
+Proof.
+  intros pre H. split; (eapply Forall_impl; [|exact H]); intros f Hf; apply s3_retryable; exact Hf.
+Qed.
+
+Lemma local_retryable_all : forall pre, Forall (retryable FlLocal) pre /\ Forall (gives_up_at_last FlLocal) pre.
+Proof. intro pre. split; apply Forall_forall; intros f _; reflexivity. Qed.
+
+Section Giveup.
+  Context {St Res : Type}.
+  Variable fl : flavour.
+  Variable attempt : option fault -> St -> outcome Res * St.
+  Variable Inv : St -> Prop.
+  Hypothesis H_fail : forall f s, Inv s -> exists s', attempt (Some f) s = (Failed (f_kind f), s') /\ Inv s'.
+
+  Lemma giveup_immediate : forall f rest max_tries reauth s,
+    Inv s -> 1 <= max_tries -> fl <> FlLocal -> f_kind f = K403 ->
+    exists s', run_method fl attempt max_tries reauth (Some f :: rest) s = (RError K403, s', 1, 0) /\ Inv s'.
+  Proof.
+    intros f rest max_tries reauth s HI Hmax Hfl Hk.
+    destruct (H_fail f s HI) as (s' & E & HI'). exists s'. split; auto.
+    destruct max_tries as [|m]; [lia|].
+    unfold run_method. destruct fl; try contradiction.
+    - cbn [backoff hd tl]. rewrite E, Hk. reflexivity.
+    - destruct reauth; cbn [requires_auth backoff hd tl]; rewrite E, Hk; reflexivity.
+  Qed.
+End Giveup.
